@@ -45,7 +45,7 @@ _FAIL = object()
 
 
 def budget(tier):
-    return {"examples": 8000 if tier == "quick" else 120000, "shards": 16, "shrink": 200 if tier == "quick" else 600}
+    return {"examples": 12000 if tier == "quick" else 120000, "shards": 16, "shrink": 200 if tier == "quick" else 600}
 
 
 # ---------------------------------------------------------------------------------------------------------------------
